@@ -98,5 +98,9 @@ func (fs *FS) fromOSPath(
 	if fsPath == "" {
 		fsPath = "."
 	}
+	if !hackpadfs.ValidPath(fsPath) {
+		// e.g. "/root/../x", "/root//a", "/root/a/": not the OS path of any FS path
+		return "", errInvalid
+	}
 	return fsPath, nil
 }
